@@ -89,12 +89,14 @@ type Frame struct {
 	parent   *Frame
 	pure     bool
 	oldVals  map[ssa.Value]Val // for clause evaluation: values in the pre-state
+	preState *State // clause evaluation: the pre-state (for ghostIntAtEntry)
 	quantRec map[ssa.Instruction]*quantRecT // quantifier bodies evaluated in this frame
 	oldQuant map[ssa.Instruction]*quantRecT // the same, from the pre-state evaluation
 	loops    []*loopInfo
 	loopOf   map[*ssa.BasicBlock]*loopInfo
 	rets     []retState
 	panics   []panicState
+	escaped  []panicState // exceptional exits whose deferred calls have already run
 	deferArgs map[*ssa.Defer]*ssa.Defer
 	depth    int
 	namedResults []*ssa.Alloc
@@ -142,6 +144,7 @@ func (vc *VC) newFrame(fn *ssa.Function, parent *Frame) *Frame {
 	if parent != nil {
 		fr.depth = parent.depth + 1
 		fr.pure = parent.pure
+		fr.preState = parent.preState
 	}
 	if fr.depth > 12 {
 		fail("inlining depth exceeded at %s", relFuncName(fn))
